@@ -31,16 +31,31 @@ theorem C10_apply (ed : Editor Int) (f : Nat → List Int → List (List Int)) (
       (Spec.apply ed.text (o.withDefaults cxA).lineSep (o.withDefaults cxA).noTrailing f)) :=
   applyOpts_eq_spec cxA ed f o
 
-/-- a callback returning its argument reproduces the text exactly, for every non-self-overlapping
-(unbordered) separator -/
-theorem C10_apply_identity (ed : Editor Int) (o : Options Int)
-    (hu : Unbordered (o.withDefaults cxA).lineSep) :
+/-- a callback returning its argument reproduces the text exactly, for EVERY separator (the defaulted
+separator is never empty) — also a self-overlapping one such as "aa" or "--" -/
+theorem C10_apply_identity (ed : Editor Int) (o : Options Int) :
     ed.applyOpts cxA (fun _ l => [l]) o = .ok ed :=
-  applyOpts_id_of_unbordered cxA dLineSep_ne ed o hu
+  applyOpts_id cxA dLineSep_ne ed o
 
-/-- the hypothesis is needed: with the self-overlapping separator "aa" the identity callback does not
-reproduce "aaa" (this is why the property quantifies over non-self-overlapping separators) -/
-example : Spec.apply [7, 7, 7] [7, 7] false (fun _ l => [l]) ≠ [7, 7, 7] := by decide
+/-- the same at the specification level, for every non-empty separator and both policies -/
+theorem C10_apply_identity_spec (text sep : List Int) (nt : Bool) (h : sep ≠ []) :
+    Spec.apply text sep nt (fun _ l => [l]) = text := Spec.apply_id text sep nt h
+
+/-- the former counterexample (D-fix): with the self-overlapping separator "aa" the identity callback
+now reproduces "aaa" (the split is ["", "a"]: the last line "a" is unterminated although the text
+ends with the characters of the separator) … -/
+example : Spec.apply [0x61, 0x61, 0x61] [0x61, 0x61] false (fun _ l => [l]) = [0x61, 0x61, 0x61] := by
+  decide
+/-- … also through the model's `ApplyOpts`, … -/
+example : (Editor.root [0x61, 0x61, 0x61] {}).applyOpts cxA (fun _ l => [l])
+    { lineSep := [0x61, 0x61] } = .ok (Editor.root [0x61, 0x61, 0x61] {}) :=
+  C10_apply_identity _ _
+/-- … and "a---" with separator "--" ("a", "-": the `-` is an unterminated last line) -/
+example : Spec.apply [0x61, 0x2d, 0x2d, 0x2d] [0x2d, 0x2d] false (fun _ l => [l]) =
+    [0x61, 0x2d, 0x2d, 0x2d] := by decide
+/-- a text that really ends with a terminated line keeps its separator: "a--" ↦ "a--" -/
+example : Spec.apply [0x61, 0x2d, 0x2d] [0x2d, 0x2d] false (fun _ l => l :: []) =
+    [0x61, 0x2d, 0x2d] := by decide
 
 /-- Lines / LinesFrom / LinesTo select exactly the pieces of the documented normalised range, as a
 sub-editor whose byte range is [|before|, |before ++ selected|) -/
